@@ -1,2 +1,29 @@
-From Coq Require Import List.
-Theorem C03_placeholder : True. Proof. exact I. Qed.
+(* C03 - ill-formed calls are rejected with documented errors, never with an internal exception.
+   What is proved here is the part of the property that is a statement about a function of the
+   description string alone: for EVERY string, the stage-1 parser (the first thing every entry
+   point runs) ends either with a tree or with a SyntaxError whose markers lie in the string; the
+   assert statements of parse.py / tree.py (model outcome [Internal site]) are unreachable.  On
+   the pinned tree this theorem was false of the faithful model ('a | b' reached the assert at
+   parse.py:219, see known_findings.json "fixed" F1) - it became provable with the fix.
+   The remainder of C03 (rule layer, solver, argument binding, "before any backend computation")
+   is decided by the oracle harness harness/c03.py over generated corruptions; see DESIGN.md for
+   why that part is a sampled check and which statement it checks. *)
+From Coq Require Import List NArith ZArith.
+From EinxV Require Import Model.Parse Proofs.ParseProofs.
+Import ListNotations.
+
+Definition no_internal {A} (r : result A) : Prop := match r with Internal _ => False | _ => True end.
+
+Theorem C03_parser_never_fails_internally :
+  forall text : list N, no_internal (parse_op text) /\ no_internal (parse_args text) /\ no_internal (parse_arg text).
+Proof.
+  intros text. pose proof (parse_op_good text) as H1. pose proof (parse_args_good text) as H2. pose proof (parse_arg_good text) as H3.
+  unfold no_internal, well_reported in *.
+  destruct (parse_op text), (parse_args text), (parse_arg text); tauto.
+Qed.
+Print Assumptions C03_parser_never_fails_internally.
+
+(* the string on which the pinned tree raised AssertionError is now a SyntaxError at the bar *)
+Example C03_bar_is_a_syntax_error :
+  match parse_op [97; 32; 124; 32; 98]%N with Err _ pos => pos = [2%Z] | _ => False end.
+Proof. vm_compute. reflexivity. Qed.
